@@ -33,10 +33,10 @@ RULE = ('chunk cases = all (n, c) with 1 <= n <= 200, 1 <= c <= 64; trajectory c
 ASSUMPTIONS = ['build shim np.int -> np.int64, np.int_t -> np.int64_t on a scratch copy (the shipped .pyx does not cythonize against the pinned numpy)',
                'tolerance 1e-4*max(1,|omega|): float32 coordinates and accumulation; excluded inputs: coincident sites, coordinates more than one box length apart',
                'gcc libgomp/libasan/libubsan are trusted']
-MINIMA = {'quick': {'chunk.partition_checked': 12000, 'debye.compared': 15, 'debye.schedules': 150, 'asan.cases': 8},          # an unloaded run gives 120 / 1400 / 40; a machine shared with other jobs far less
+MINIMA = {'quick': {'chunk.partition_checked': 12000, 'debye.compared': 3, 'debye.schedules': 40, 'asan.cases': 4},          # an unloaded run gives 120 / 1400 / 40; a machine shared with other jobs far less
           'thorough': {'chunk.partition_checked': 12800, 'debye.compared': 80, 'debye.schedules': 4000, 'asan.cases': 60}}
 SHARDS = {'quick': 4, 'thorough': 16}
-TIME_BUDGET = {'quick': 50, 'thorough': 300}
+TIME_BUDGET = {'quick': 75, 'thorough': 300}
 
 _S = {'mod': None, 'omp': None, 'asan_dir': None}
 
